@@ -784,7 +784,7 @@ def impl(case):
 # ============================================================================ correspondence
 PREAMBLE = (em.PREAMBLE + 'Require Import Fsic.CodeGen.CodeGen Fsic.CodeGen.CodeGenF.\nFrom Coq Require Import String Ascii.\n'
             'Open Scope string_scope.\nOpen Scope float_scope.\nOpen Scope Z_scope.\n')       # the imported files open nat_scope: Z on top again
-K_EVAL_CAP = {'quick': 1500, 'thorough': 8000}
+K_EVAL_CAP = {'quick': 1000, 'thorough': 8000}
 _DETAIL = {}
 
 
